@@ -14,6 +14,8 @@
 -/
 import Varlink.Idl.Parser
 import VarlinkProofs.Lemmas.IdlTotal
+import Varlink.Extracted.Code
+import Varlink.ExpectedCode
 namespace Varlink.C09
 open Varlink Varlink.Idl
 
@@ -74,5 +76,11 @@ example : ∃ t, New (str "interface a.b\nmethod F(a: ?[]int) -> ()") = .ok t :=
   | _ => rw [hn] at h; cases h
 example : (New (str "interface a.b\nmethod F(")).errOf = some .missingMethodInput := by decide +kernel
 example : WF (initSt (str "interface a.b")) := initSt_wf _
+
+/-- **Tie to the source**: the declarations of /repo that this property's model transliterates
+    (`Extracted.codeNames_C09`) have, in the current working tree, exactly the fingerprints of the code the
+    model was validated against. Any change to them breaks this obligation; the check then searches the
+    correspondence streams for an input on which the changed code violates the property. -/
+theorem modelled_code_unchanged : Varlink.Extracted.code_C09 = Varlink.ExpectedCode.code_C09 := by decide
 
 end Varlink.C09
